@@ -14,7 +14,7 @@ open Node Raft Raft.CC RaftProps.C02 RaftProps.C05
 variable {cfg : JointConfig} {c0 : Nat} {h : List Sys}
 
 /-- a real vote request of `x` that is around carries a term `x` has reached -/
-theorem req_term_le (H : Hyp2 cfg c0 h) {n : Nat} {a : Sys} (ha : h[n]? = some a) {x : Nat}
+theorem req_term_le (H : Hyp2w cfg c0 h) {n : Nat} {a : Sys} (ha : h[n]? = some a) {x : Nat}
     {st : NState} {q : Message} (hx : a.node x = some st) (hq : q ∈ a.net ∨ q ∈ st.raft.msgs)
     (hty : q.msgType = .msgRequestVote) (hfrm : q.frm = x) : q.term ≤ st.raft.term := by
   have I1 := (hist_all H.hist).1 a (mem_of_get ha)
@@ -32,7 +32,7 @@ def CandQ (s : Sys) : Prop :=
     (∃ q ∈ s.net, q.msgType = .msgRequestVote ∧ q.frm = x ∧ q.term = st.raft.term) →
     ∀ a ∈ st.raft.msgs, isAck a → a.index = 0
 
-theorem cand_q (H : Hyp2 cfg c0 h) : ∀ (n : Nat) (s : Sys), h[n]? = some s → CandQ s := by
+theorem cand_q (H : Hyp2w cfg c0 h) : ∀ (n : Nat) (s : Sys), h[n]? = some s → CandQ s := by
   have hall1 := (hist_all H.hist).1
   refine hist_induct h _ ?_ ?_
   · intro s h0 x st hx _ _ a ha
@@ -108,7 +108,7 @@ theorem cand_q (H : Hyp2 cfg c0 h) : ∀ (n : Nat) (s : Sys), h[n]? = some s →
         exact ih x stx hx hs ⟨q, hq, hty, hfrm, hterm⟩ y hy hack
 
 /-- **a leader's queue holds no acknowledgement** -/
-theorem leader_no_ack (H : Hyp2 cfg c0 h) {n : Nat} {s : Sys} (hn : h[n]? = some s) {l : Nat}
+theorem leader_no_ack (H : Hyp2w cfg c0 h) {n : Nat} {s : Sys} (hn : h[n]? = some s) {l : Nat}
     {st : NState} (hl : s.node l = some st) (hs : st.raft.state = .leader) :
     ∀ a ∈ st.raft.msgs, isAck a → a.index = 0 := by
   have hall := hist_all H.hist
